@@ -23,6 +23,7 @@ def jobs(tier):
     ]
     for go in range(6):
         js.append(job(M, "c08", f"layout/n2/order{go}", dict(n=2, mode="layout", grouporder=go), max_seconds=ms))
+    js.append(job(M, "c08_big", "n999/concrete", dict(n=999) if t else dict(n=300), max_seconds=ms))
     if t:
         js += [job(M, "c08", "lines/n3", dict(n=3, mode="lines"), max_seconds=ms),
                job(M, "c08", "iso/n3/DT", dict(n=3, mode="iso", symbols=["C", "H", "D", "T"]), max_seconds=ms),
@@ -45,5 +46,5 @@ def main(tier):
                      "charges, radicals, masses are compared as attrs.get(key, 0) (a stored zero is not a difference); the TUCAN strings must be equal",
                      "the V3000 rendering omits default values"],
         stubs=["module attribute `int`/`float` of the two reader modules shadowed to map a placeholder back to its term"],
-        outside=["the atom-block mass-difference field dd (the reader documents that it ignores it)", "999-atom files / column overflow", "S  SKP semantics (skipped lines are benign text here)"],
+        outside=["files beyond one concrete %d-atom chain per tier (three-digit fields filled to the last column at 999)" % (999 if t else 300), "the atom-block mass-difference field dd (the reader documents that it ignores it)", "S  SKP semantics (skipped lines are benign text here)"],
         explanation="REF-V2000 and REF-V3000 renderings of one abstract molecule -> real reader on both under symx; obligations: both graphs equal the abstract molecule attribute for attribute and bond for bond, and serialize(canonicalize()) gives equal strings")
